@@ -416,6 +416,11 @@ def scoping_case(acc, placements, toml_set, cli_set):
             if got[0] != want:
                 acc.violation(f"scoping:{name}:{cname}.{f}", f"annotation placements {placements}, toml={toml_set}, cli={cli_set}: {cname}.{f} ran with --loop {got[0]} (from {got[1].name}); reference fold says {want}", case)
                 return
+            # ... and is attributed to the source that set it (cross-option rules such as --solver vs --solver-command compare sources)
+            if int(got[1]) != max(layers)[0]:
+                acc.violation(f"scoping-source:{name}:{cname}.{f}", f"annotation placements {placements}, toml={toml_set}, cli={cli_set}: {cname}.{f} got --loop {got[0]} attributed to source {got[1].name} ({int(got[1])}); "
+                              f"the winning layer has rank {max(layers)[0]} (1 default, 2 config file, 3 contract annotation, 4 function annotation, 5 command line)", case)
+                return
             acc.outcome(("scoping", want))
     acc.state(("scoping", name))
 
